@@ -12,6 +12,7 @@ type Prop struct {
 var Registry = map[string]Prop{
 	"C01": {C01, c01Replay},
 	"C02": {C02, c02Replay},
+	"C03": {C03, c03Replay},
 	"C04": {C04, c04Replay},
 	"C05": {C05, c05Replay},
 	"C06": {C06, c06Replay},
